@@ -193,7 +193,10 @@ def _match_value(pred, val):
 
 def match_known(known, component, tags):
     for e in known:
-        if e.get("component") != component:
+        if "component_prefix" in e:
+            if not component.startswith(e["component_prefix"]):
+                continue
+        elif e.get("component") != component:
             continue
         if all(_match_value(p, tags.get(k)) for k, p in e.get("match", {}).items()):
             return e
@@ -213,7 +216,7 @@ def run_shard(mod, ctx: Ctx, shard: int, max_examples: int, confirmed_buckets=()
     from hypothesis import HealthCheck, Phase, given, settings
 
     stats = Stats()
-    strat = mod.strategy(ctx)
+    strat = mod.strategy(ctx, shard) if getattr(mod, "STRATIFIED", False) else mod.strategy(ctx)
     confirmed = set(confirmed_buckets)
     shrink = getattr(mod, "SHRINK", True)
     phases = [Phase.explicit, Phase.reuse, Phase.generate] + ([Phase.shrink] if shrink else [])
@@ -262,6 +265,9 @@ def run_shard(mod, ctx: Ctx, shard: int, max_examples: int, confirmed_buckets=()
             break
         except Violation:
             v = last_fail["v"]
+            is_known = match_known(load_known(ctx.prop), v.component, jsonable(v.tags)) is not None
+            if not shrink and hasattr(mod, "shrink_candidates") and not is_known:
+                v, last_fail["case"] = greedy_shrink(mod, last_fail["case"], v)
             stats.violations.append(
                 dict(component=v.component, message=v.message, tags=jsonable(v.tags), case=jsonable(last_fail["case"]), detail=jsonable(v.detail))
             )
@@ -271,6 +277,27 @@ def run_shard(mod, ctx: Ctx, shard: int, max_examples: int, confirmed_buckets=()
         except hypothesis.errors.Unsatisfiable as e:  # generator problem -> harness error
             raise HarnessError("generator unsatisfiable: %s" % e)
     return stats
+
+
+def greedy_shrink(mod, case, v, max_evals=40):
+    """structural delta-debugging for expensive checks: adopt any smaller candidate that fails in the same bucket"""
+    evals = 0
+    progress = True
+    while progress and evals < max_evals:
+        progress = False
+        for cand in mod.shrink_candidates(case):
+            evals += 1
+            try:
+                mod.evaluate(cand)
+            except Violation as v2:
+                if v2.bucket() == v.bucket():
+                    case, v, progress = cand, v2, True
+                    break
+            except Exception:
+                pass
+            if evals >= max_evals:
+                break
+    return v, case
 
 
 def _shard_entry(args):
